@@ -575,9 +575,12 @@ Section Builder.
           end
     end.
 
-  (** createVar *)
+  (** createVar: an unnamed or blank (_) variable gets the default name *)
+  Definition declared_name (name def_name : str) : str :=
+    if str_eqb name [] || str_eqb name [95] then def_name else name.
+
   Definition create_var (name : str) (t : ty) (def_name : str) : outcome gvar :=
-    let nm := match name with [] => def_name | _ => name end in
+    let nm := declared_name name def_name in
     do tn <- type_name (deref_ptr t);
     do ext <- is_external (deref_ptr t);
     Ok {| v_name := nm; v_type := tn; v_pointer := is_ptr t; v_external := ext |}.
@@ -585,6 +588,13 @@ Section Builder.
   Definition nth_pos (l : list position) (i : nat) : position := nth i l pos0.
 
   (** CreateFunction; [comments]: the text lines of the method's doc group at build time *)
+  (** the first name, in declaration order, that an earlier variable already has *)
+  Fixpoint first_redeclared (seen names : list str) : option str :=
+    match names with
+    | [] => None
+    | n :: rest => if mem_str n seen then Some n else first_redeclared (n :: seen) rest
+    end.
+
   Definition create_function (fuel : nat) (m : method_entry) (comments : list str) : res function :=
     let sg := me_sig m in
     let o := me_opts m in
@@ -628,13 +638,19 @@ Section Builder.
                    if v_external src_var0 then errorf (at_pos mpos "an external package type cannot be a receiver")
                    else ret {| v_name := recv; v_type := v_type src_var0; v_pointer := v_pointer src_var0; v_external := v_external src_var0 |}
                end);
+            let ret_error := me_ret_error d m in
+            (* the operands, and err when the function returns an error, are declared in one scope *)
+            doR _ <- (match first_redeclared (if ret_error then [s2b "err"] else [])
+                                             (v_name src_var :: v_name dst_var :: List.map v_name arg_vars) with
+                      | Some n => errorf (at_pos' mpos (s2b "the name " ++ n ++ s2b " is used for more than one variable of the generated function"))
+                      | None => ret tt
+                      end);
             let arg_nodes := List.map (fun vt => NRoot (v_name (fst vt)) (snd vt)) (combine arg_vars arg_ts) in
             doR assignments <-
               (if o_reverse o then
                  struct_to_struct o mpos fuel (NRoot (v_name src_var) src_t) (NRoot (v_name dst_var) dst_t) arg_nodes
                else
                  struct_to_struct o mpos fuel (NRoot (v_name dst_var) dst_t) (NRoot (v_name src_var) src_t) arg_nodes);
-            let ret_error := me_ret_error d m in
             doR _ <- (if ret_error then ret tt else
                       match find_error_assignment assignments with
                       | Some lhs => errorf (at_pos' mpos (s2b "the source of " ++ assign_expr lhs ++ s2b " returns an error but the method has no error result"))
